@@ -380,10 +380,16 @@ pub fn c10_units(run: &Run, out: &str) -> Option<Viol> {
         let expect = (ind + run.cfg.continuation_indents as usize * cont) * unit_len;
         let units_only = tail.chars().all(|c| c == unit);
         if !(units_only && tail.len() == expect) && spaces == 0 {
+            // known finding F4 is exactly this: the continuation width saturates at 255 columns (soft tabs)
+            let saturated = !run.cfg.use_tabs
+                && run.cfg.continuation_indents as usize * unit_len > 255
+                && units_only
+                && tail.len() == ind * unit_len + cont * 255;
+            let site = if saturated { " [site: continuation width saturated at 255 columns]" } else { "" };
             return v(
                 "C10",
                 "units",
-                format!("token {i} {}: indentation {tail:?} but levels={ind} continuations={cont} ci={} unit={unit_len}x{unit:?}", fin.kinds[i], run.cfg.continuation_indents),
+                format!("token {i} {}: indentation of {} columns but levels={ind} continuations={cont} ci={} unit={unit_len}x{unit:?}{site}", fin.kinds[i], tail.len(), run.cfg.continuation_indents),
             );
         }
     }
